@@ -408,9 +408,16 @@ func Round3Generic(c *Ctx, id string) {
 		valueHalfOnErrorEdge(c, "value-half-on-error-edge", pkgTransport)
 		nilFuncCalls(c, "nil-func-call", pkgTransport)
 	case "C16":
+		loopOuterStateEscapes(c, "loop-outer-state-escapes", pkgIntrosp)
+		loopInvariantFilter(c, "loop-invariant-filter", pkgIntrosp)
+		mutatorListsInOrderAndComplete(c)
 		c16Round3(c)
 		decidedConditions(c, "decided-conditions", modPath("graphql/introspection"))
 	case "C01":
+		c08FloatGuard(c)
+		genRound3(c, "field-directives")
+		syntaxAgreement(c, "probe-naming", "probe-namingfn")
+		syntaxAgreement(c, "probe-models", "probe-modelsfn")
 		wgAddBeforeGo(c, "wg-add-before-go", true, pkgGraphql)
 		constIndexInRange(c, "const-index-in-range", true, pkgGraphql)
 		genRound3(c, "typename", "implementors", "reported-error", "args-ctx")
@@ -420,6 +427,8 @@ func Round3Generic(c *Ctx, id string) {
 		c05WG(c)
 		c04HandlerShape(c)
 	case "C03":
+		mutatorListsInOrderAndComplete(c)
+		rawParamsReadAfterMutators(c)
 		createReturnsContext(c)
 		mutatorsSeeOperationContext(c)
 		getParamFields(c)
@@ -431,12 +440,20 @@ func Round3Generic(c *Ctx, id string) {
 		genRound3(c, "field-hooks", "deferred-only")
 		swappedFieldArgs(c, "swapped-field-args", pkgGraphql)
 	case "C14":
+		mutatorListsInOrderAndComplete(c)
+		rawParamsReadAfterMutators(c)
+		c03DispatchGated(c)
+		c09StatusVsDispatch(c, nil)
 		genRound3(c, "complexity-keys")
 		independentTests(c)
 		staleLoopCarried(c, "stale-loop-carried", pkgComplex)
 		c03FailClosed(c)
 		configFieldsRead(c, "config-fields-read", pkgExecutor, pkgHandler, pkgExtension, pkgComplex)
 	case "C15":
+		unconditionalSelfRecursion(c, "unconditional-self-recursion", pkgExtension, pkgExecutor, pkgHandler, pkgTransport, modPath("graphql/handler/lru"), modPath("handler"))
+		rawParamsReadAfterMutators(c)
+		lruIsSynchronised(c)
+		c07NoGlobalWrites(c)
 		createReturnsContext(c)
 		mutatorsSeeOperationContext(c)
 		wsRejectedOperationAnswered(c)
@@ -447,12 +464,17 @@ func Round3Generic(c *Ctx, id string) {
 		dispatchCtxCarriesOperation(c)
 		mapRangeSorted(c, "map-range-sorted", modPath("graphql/introspection"), pkgExecutor, pkgGraphql)
 	case "C02":
+		failedAssertIsZero(c, "failed-assert-is-zero", pkgGraphql)
+		jsonUnmarshalNeedsPointer(c, "json-unmarshal-needs-pointer", pkgGraphql, pkgTransport)
 		ifaceConstCompare(c, "iface-const-compare", pkgGraphql)
 		variableValuesOfSelectedOperation(c)
 		rawParamsJSONNames(c)
 		genRound3(c, "input-null", "arg-absent", "args-ctx")
 		c07PoolReset(c) // variables of an earlier request must not reach this one's coercion
 	case "C04":
+		recoverComparedWithNil(c, "recover-compared-with-nil", true, pkgGraphql, pkgTransport, pkgExecutor, pkgHandler)
+		noSharedErrorValues(c)
+		c01OneError(c)
 		c20Round3(c, false)
 		errorListLenZeroOnly(c, "error-list-len-zero-only", true, pkgTransport, pkgExecutor, pkgGraphql)
 		genRound3(c, "reported-error", "deferred-fields")
@@ -486,6 +508,10 @@ func Round3Generic(c *Ctx, id string) {
 		}
 		fieldLockConsistency(c, "field-lock-consistency", modPath("graphql/handler/apollotracing"), pkgTransport, pkgExtension, pkgHandler)
 	case "C08":
+		jsonUnmarshalNeedsPointer(c, "json-unmarshal-needs-pointer", pkgGraphql, pkgTransport)
+		genRound3(c, "response-buffer")
+		c01ListNull(c)
+		numericCaseSets(c)
 		constIndexInRange(c, "const-index-in-range", true, pkgGraphql)
 		ifaceConstCompare(c, "iface-const-compare", pkgGraphql)
 		hexAlphabetIntact(c, "hex-alphabet-intact", pkgGraphql)
@@ -500,6 +526,9 @@ func Round3Generic(c *Ctx, id string) {
 		formBodiesQueryUnescaped(c)
 		rawParamsJSONNames(c)
 	case "C10":
+		loopOuterStateEscapes(c, "loop-outer-state-escapes", pkgTransport, pkgGraphql)
+		c11Tables(c)
+		c11CloseOnce(c)
 		valueHalfOnErrorEdge(c, "value-half-on-error-edge", pkgTransport)
 		trimCutsetLooksLikePrefix(c, "trim-cutset", pkgTransport, pkgExecutor, pkgHandler, pkgGraphql)
 		nilCheckContradiction(c, "nil-check-contradiction", pkgTransport, pkgExecutor, pkgGraphql, pkgHandler)
@@ -509,6 +538,7 @@ func Round3Generic(c *Ctx, id string) {
 		uploadFieldsFromPart(c)
 		seekBasePerWhence(c)
 	case "C12":
+		genRound3(c, "response-buffer")
 		genRound3(c, "hasnext-per-payload")
 		valueReceiverCopiesSync(c, "value-receiver-copies-sync", true, pkgTransport, pkgGraphql)
 		rootOnce(c)
